@@ -92,13 +92,35 @@ def refresh_rule(rep, prog, oks):
         rep.instance(rid, "writer|%s" % w, sample={"writer": w})
 
 
+class _Renamed:
+    """report proxy that files another module's rules under this property with prefixed rule ids"""
+    def __init__(self, rep, prefix):
+        self._rep, self._p = rep, prefix
+
+    def __getattr__(self, n):
+        return getattr(self._rep, n)
+
+    def rule(self, rid, desc):
+        return self._rep.rule(self._p + rid, desc)
+
+    def instance(self, rid, what, nontrivial=True, sample=None):
+        return self._rep.instance(rid if rid.startswith(self._p) else self._p + rid, what, nontrivial=nontrivial, sample=sample)
+
+    def violation(self, rule, key, msg, site=None, detail=None):
+        return self._rep.violation(self._p + rule, key, msg, site=site, detail=detail)
+
+
 def run(rep, tier, replay=None):
     prog = facts.load("std")
     run_, oks, errs = decode_paths(prog, 14)
+    # "an expired aircraft that is heard again is reported as newly added and starts from an empty record": the per-frame facts
+    # (Added::Yes exactly on vacancy, a fresh default record, count 1) are C12's rules R2-R4, decided here as well
+    from . import c12
+    c12.action_rule(_Renamed(rep, "A-"), prog, oks)
     prune_rule(rep, prog)
     tracker.alt_passes(rep, tier, oks, lambda: refresh_rule(rep, prog, oks))
     rep.assume("NOT decided: anything involving real elapsed time (clock monotonicity, the race between now() calls, scheduling): C15 is decided only as the structural skeleton above")
-    rep.assume("an expired aircraft heard again is reported as added and starts empty: follows from C12 R1/R4 (or_default on vacancy)")
+    rep.assume("an expired aircraft heard again is reported as added and starts empty: rules A-R2..A-R4 (C12's per-frame rules) plus removal by retain() (R1)")
     return rep.finish(
         "Only the structural skeleton of C15 is decided (most of the statement is about wall-clock time). R1: prune is interpreted abstractly; the closure's "
         "decision table over {clock error, elapsed < T, elapsed >= T} and the operands of the comparison (last_time.elapsed(), Duration::from_secs(filter_time), operator <). "
